@@ -174,6 +174,8 @@ def k18_annotate(ctx, pid: str):
                 for a in e[3]:
                     if isinstance(a, AList) and not a.generic and all(isinstance(x, tuple) and len(x) == 2 for x in a.items):
                         a = dict(a.items)  # update([(key, value), ...])
+                    if isinstance(a, (tuple, list)) and all(isinstance(x, tuple) and len(x) == 2 for x in a):
+                        a = dict(a)  # update(((key, value), ...))
                     if not isinstance(a, dict):
                         raise AnalysisError("%s: annotations.update(%r) is not followed" % (fi.where(), a))
                     ants.update(a)
